@@ -21,6 +21,7 @@ ASSUMPTIONS = ['"names the failure" is judged leniently: the output must contain
                'device model per DFU 1.1 + DfuSe (bbv/dfusim.py)']
 
 STATUS = list(range(1, 16))
+VENDOR = [16, 0x2a, 0x80, 0xfe, 0xff]          # outside the DFU 1.1 table: still 'not OK'
 DESCR = {
     1: 'File is not targeted for use by this device.', 2: 'File is for this device but fails some vendor-specific verification test.',
     3: 'Device is unable to write memory.', 4: 'Memory erase function failed.', 5: 'Memory erase check failed.',
@@ -77,7 +78,7 @@ def run_case(acc, case):
     acc['ctr']['error_statuses_delivered'] += len(dev.error_reports)
     out = r.stdout
     low = out.lower()
-    named = any(DESCR[s].lower()[:30] in low for _k, s in dev.error_reports) or 'error' in low or 'fail' in low
+    named = any(DESCR[s].lower()[:30] in low for _k, s in dev.error_reports if s in DESCR) or 'error' in low or 'fail' in low
     problems = []
     if r.done_printed:
         problems.append('announces success ("done!")')
@@ -87,7 +88,7 @@ def run_case(acc, case):
         problems.append('output does not name the failure')
     if problems:
         core.add_viol(acc, 'device reported status %d (%s) for %s of a %d-page image (%s device): the tool %s' % (
-            st0, DESCR[st0][:40], step(k0), npages, 'stalling' if case['stall'] else 'lenient', ' and '.join(problems)), case,
+            st0, DESCR.get(st0, 'code outside the DFU 1.1 table')[:40], step(k0), npages, 'stalling' if case['stall'] else 'lenient', ' and '.join(problems)), case,
             {'stdout_tail': out[-300:], 'exit': r.code}, key=None)
     if case.get('sample'):
         core.add_sample(acc, {'fault_plan': case['inject'], 'pages': npages, 'device': 'stalls' if case['stall'] else 'keeps answering',
@@ -135,6 +136,11 @@ def plan(tier, seed):
                 for stall in (True, False):
                     for s in ([4, 6, 7, 8] if tier == 'quick' else STATUS):
                         cases.append({'kind': 'fault', 'variant': v, 'npages': npages, 'inject': [[k, s]], 'stall': stall, 'short': 3})
+    for npages in (1, 2, 3):
+        for k in range(3 * npages):
+            for s in VENDOR:
+                for stall in (True, False):
+                    cases.append({'kind': 'fault', 'variant': '4', 'npages': npages, 'inject': [[k, s]], 'stall': stall, 'short': 0})
     nsh = 64 if tier == 'quick' else 256
     cases.sort(key=lambda c: -c.get('npages', 0))
     shards = [{'cases': cases[i::nsh]} for i in range(nsh)]
@@ -148,8 +154,8 @@ def gates(acc, tier):
         g.append('oversize cases missing')
     if acc['ctr']['error_statuses_delivered'] == 0:
         g.append('no injected error status ever reached the host')
-    if len(acc['seen'].get('status_codes', ())) < 15:
-        g.append('only %d/15 error status codes injected' % len(acc['seen'].get('status_codes', ())))
+    if len(acc['seen'].get('status_codes', ())) < 20:
+        g.append('only %d/20 error status codes injected' % len(acc['seen'].get('status_codes', ())))
     if len(acc['seen'].get('failed_step_kinds', ())) < 3 and not acc['nviol']:
         g.append('failed step kinds seen: %s (need erase, set address, write)' % sorted(acc['seen'].get('failed_step_kinds', ())))
     if len(acc['seen'].get('device_behaviour', ())) < 2:
